@@ -382,7 +382,7 @@ func oracleSS2022Server(t failer, sel, mode uint8, frag uint16, data []byte) (ou
 		path = "fallback"
 	}
 	res := useAddr(t, recSSServer, "ss2022-server", req.Addr, req.Username, false)
-	out = oracleResult{true, req.Addr, req.Username, res}
+	out = oracleResult{accepted: true, addr: req.Addr, user: req.Username, use: res}
 	var n int64
 	guard(t, recSSServer, "ss2022-server-tunnel", desc, func() {
 		_ = len(req.Payload)
@@ -839,7 +839,7 @@ func oracleSS2022UDPServer(t failer, sel uint8, data []byte) (out oracleResult) 
 		}
 		accepted++
 		cls = addrClass(ta)
-		out = oracleResult{true, ta, username, useAddr(t, recSSUDPServer, "ss2022-udp-server", ta, username, true)}
+		out = oracleResult{accepted: true, addr: ta, user: username, use: useAddr(t, recSSUDPServer, "ss2022-udp-server", ta, username, true)}
 		// relay the payload in place with each upstream packer exactly where the service would
 		relayInPlace(t, recSSUDPServer, desc, buf, ta, ps, pl)
 		if packer != nil && ta.IsIP() {
